@@ -696,3 +696,93 @@ def c04_replay(ctx, obj):
         ctx.violation("replay: " + x["what"][:600], dict(engine="K", script=obj["script"], crash_at=obj["crash_at"],
                                                            torn=obj.get("torn"), power=obj.get("power")))
     ctx.coverage.update(dict(evaluations=1, distinct_nontrivial=1, samples=[obj["script"][:8]]))
+
+
+# ---------------------------------------------------------------------------------------------
+# Engine H (HTTP)
+from . import httpengine as H
+
+
+def c13_run(ctx):
+    n_seq = 12 if ctx.tier == "quick" else 250
+    n_req = 40 if ctx.tier == "quick" else 60
+    seeds = [ctx.rnd.randrange(1, 10 ** 9) for _ in range(n_seq)]
+    from concurrent.futures import ThreadPoolExecutor
+    with ThreadPoolExecutor(max_workers=8) as ex:
+        results = list(ex.map(lambda sd: H.run_sequence(sd, n_req, fixed=True), seeds))
+    kinds, statuses, n_total = {}, {}, 0
+    known_500 = 0
+    first_mismatch = None
+    for sd, r in zip(seeds, results):
+        n_total += r["n"]
+        for k in r["kinds"]:
+            kinds[k] = kinds.get(k, 0) + 1
+        for s_ in r["statuses"]:
+            statuses[s_] = statuses.get(s_, 0) + 1
+        for d in r["dropped"]:
+            ctx.violation(f"request received no HTTP response (connection dropped): `{d['request'][:200]}`",
+                          dict(engine="H", seed=sd, n_requests=n_req, request_index=d["n"], raw_request=d["raw"]))
+        for n in r["not_live"]:
+            ctx.violation(f"server no longer answers GET /version after request #{n}", dict(engine="H", seed=sd, n_requests=n_req, request_index=n))
+        if r["model_rc"] != 0 and first_mismatch is None:
+            first_mismatch = (sd, dict(request="(model driver failed)", impl="", model=r["model_err"]))
+        for m in r["mismatches"]:
+            # a concrete deviation from the store semantics the route stands for
+            if first_mismatch is None:
+                first_mismatch = (sd, m)
+        # 5xx on a client error: known class F13b = store validation errors surfacing as 500 on append/import
+        for n, (k, s_) in enumerate(zip(r["kinds"], r["statuses"])):
+            if s_.startswith("5"):
+                if k in ("append", "import"):
+                    known_500 += 1
+                else:
+                    ctx.violation(f"request #{n} ({k}) answered {s_}", dict(engine="H", seed=sd, n_requests=n_req, request_index=n,
+                                                                            raw_request=r["raws"][n]))
+    if known_500 and any(k["key"] == "validation-errors-are-500" for k in ctx.known):
+        k = [k for k in ctx.known if k["key"] == "validation-errors-are-500"][0]
+        ctx.known_lines.append(f"KNOWN-FINDING: property=C13 {k['key']}: {k['what']} ({known_500} occurrences in this run)")
+    elif known_500:
+        ctx.violation("client errors (append into an unregistered context / NUL topic) answered with 500 instead of 4xx",
+                      dict(engine="H", seeds=seeds[:3], n_requests=n_req))
+    if first_mismatch and not any(not v["no_input"] for v in ctx.violations):
+        sd, m = first_mismatch
+        ctx.violation(f"HTTP route deviates from the store operation it stands for: request `{m['request'][:200]}` answered "
+                      f"`{m['impl'][:250]}`, the front-end model over the store says `{m['model'][:250]}`"
+                      + (f"; store after the request: impl `{m.get('impl_dump', '')[:150]}` model `{m.get('model_dump', '')[:150]}`"
+                         if m.get("impl_dump") != m.get("model_dump") else ""),
+                      dict(engine="H", seed=sd, n_requests=n_req, request_index=m.get("n"), raw_request=m.get("raw"), first_disagreement=m))
+    ctx.coverage.update(dict(
+        evaluations=n_total, distinct_nontrivial=len(seeds),
+        rule="one evaluation = one raw HTTP/1.1 request sent over the unix socket to the real api::serve (in-process), on a new "
+             "connection, inside a generated sequence over all routes with valid and invalid ids, contexts, TTLs, option "
+             "strings, xs-meta payloads (bad base64 / UTF-8 / JSON / non-ASCII bytes) and bodies (empty, binary, 9000 bytes); "
+             "after each: response class + decoded body and the full store dump (through the Rust API) are compared with the "
+             "extracted front-end model, plus a liveness probe after every 5xx / dropped connection; distinct_nontrivial "
+             "counts distinct request sequences",
+        traces_validated_against_impl=len(seeds), request_kinds=kinds, status_histogram=statuses,
+        samples=[dict(seed=seeds[0], first_requests=results[0]["sample"])]))
+
+
+def c13_replay(ctx, obj):
+    r = H.run_sequence(obj["seed"], obj.get("n_requests", 40), fixed=True)
+    print(json.dumps(dict(dropped=r["dropped"][:3], mismatches=r["mismatches"][:2]), indent=1)[:3000])
+    for d in r["dropped"]:
+        ctx.violation(f"replay: request received no HTTP response: `{d['request'][:200]}`", dict(engine="H", seed=obj["seed"]))
+    if r["mismatches"] and not r["dropped"]:
+        m = r["mismatches"][0]
+        ctx.violation(f"replay: `{m['request'][:200]}` answered `{m['impl'][:200]}`, model `{m['model'][:200]}`", dict(engine="H", seed=obj["seed"]))
+    ctx.coverage.update(dict(evaluations=r["n"], distinct_nontrivial=2, samples=[r["sample"]]))
+
+
+REGISTRY["C13"] = dict(
+    prop_file="Props/C13.v", engine="H", run=c13_run, replay=c13_replay,
+    level_text="Coq: the front-end model (routing outcome x handler over the store model) is total - every request value, "
+               "whatever component is malformed, yields a response, never a dropped connection - every >= 400 response leaves "
+               "frames, indices and registry unchanged, and each route's store transition and rendered frames are those of the "
+               "corresponding store operation (both renderings carry the same frame list). The pinned handlers are refuted "
+               "by computed witnesses (non-ASCII xs-meta, unknown CAS hash). Tie: raw HTTP/1.1 request sequences over the unix "
+               "socket against the real api::serve, response and store dump compared with the extracted model after every request.",
+    level_note=TRUSTED + "hyper's own request parsing and the byte rendering of requests are outside the model (requests hyper "
+               "rejects before `handle` are never generated); follow streams are C03/C11's subject.",
+    assumptions=["serde_json / base64 / url decoding are oracles: the generator names the malformation class, the implementation must classify it the same way"],
+)
